@@ -214,19 +214,32 @@ def nextBlockTimestamp (genesis interval now : Int) : Int :=
 
 def sum64 (l : List Nat) : Nat := l.foldl add64 0
 
+/-- `if sum+value < sum { return overflow error }; sum += value` (`none` = the overflow error) -/
+def checkedAdd (acc : Option Nat) (v : Nat) : Option Nat :=
+  match acc with
+  | none => none
+  | some a => if add64 a v < a then none else some (add64 a v)
+
+def sumChecked (l : List Nat) : Option Nat := l.foldl checkedAdd (some 0)
+
 inductive FeeResult where
+  | overflow             -- "inputs value overflow" / "outputs value overflow"
   | negative             -- "fee is negative"
   | tooLow               -- "fee is too low"
   | ok (fee : Nat)
   deriving Repr, DecidableEq
 
 def calculateFee (inputValues outputValues : List Nat) (minFee : Nat) : FeeResult :=
-  let inputsValue := sum64 inputValues
-  let outputsValue := sum64 outputValues
-  if inputsValue < outputsValue then .negative
-  else
-    let fee := inputsValue - outputsValue
-    if fee < minFee then .tooLow else .ok fee
+  match sumChecked inputValues with
+  | none => .overflow
+  | some inputsValue =>
+    match sumChecked outputValues with
+    | none => .overflow
+    | some outputsValue =>
+      if inputsValue < outputsValue then .negative
+      else
+        let fee := inputsValue - outputsValue
+        if fee < minFee then .tooLow else .ok fee
 
 /-! ## GetWalletAmount -/
 
@@ -273,12 +286,18 @@ def ProgressAnswer.status : ProgressAnswer → Nat
   | .ok _ _ => 200
   | .panic => 0
 
-/-- Result of `decoder.Decode(&searchedUtxo)`: an error, JSON `null` (pointer stays nil), or an output. -/
+/-- Result of `decoder.Decode(&searchedUtxo)`: an error, JSON `null` (pointer stays nil; answered 400
+since the decoders reject null requests), or an output. -/
 inductive Decoded (β : Type) where
   | error
   | null
   | value (b : β)
   deriving Repr
+
+/-- `len(blocks) != 0 && blocks[0] != nil` and the scan of `blocks[0].Transactions()` -/
+def inFirstBlock {ι : Type} [DecidableEq ι] (t : ι) : List (List ι) → Bool
+  | [] => false
+  | block :: _ => block.any (fun x => decide (x = t))
 
 /-- `GetTransactionProgress`.  Outputs are (transaction id, output index); blocks are lists of
 transaction ids; `genesis = none` means `GetFirstBlockTimestamp` failed (the timestamp is then 0). -/
@@ -287,7 +306,7 @@ def transactionProgress {ι : Type} [DecidableEq ι] (body : Decoded (ι × Nat)
     (getBlocks : Nat → Reply (List (List ι))) (transactions : Reply (List ι)) : ProgressAnswer :=
   match body with
   | .error => .badRequest
-  | .null => .panic                                              -- searchedUtxo.Address() on nil
+  | .null => .badRequest                                         -- `if searchedUtxo == nil …` (400)
   | .value searched =>
     match utxos with
     | .error => .serverError
@@ -304,9 +323,9 @@ def transactionProgress {ι : Type} [DecidableEq ι] (body : Decoded (ι × Nat)
         match getBlocks (toU64 height) with
         | .error => .serverError
         | .garbage => .serverError
-        | .ok [] => .serverError
-        | .ok (block :: _) =>
-          if block.any (fun t => decide (t = searched.1)) then .ok .validated blockTimestamp
+        | .ok blocks =>
+          -- no block at that height yet (empty list): nothing is validated there, the pool is consulted
+          if inFirstBlock searched.1 blocks then .ok .validated blockTimestamp
           else
             match transactions with
             | .error => .serverError
